@@ -4,8 +4,10 @@ package main
 // T-gen constants) at heights on both sides of every proposal the ledger paths test, besides the dev schedule.
 
 import (
+	"encoding/json"
 	"fmt"
 	"math"
+	"sync"
 
 	"com.tuntun.rangers/node/src/common"
 )
@@ -31,10 +33,14 @@ type forkPoint struct {
 
 // heights on both sides of Proposal 002 (journaling of balance writes), 015 (gas fee), 017 (gas-limit default),
 // 018 (eviction), 026 (fee amount, gas magnification), 027 (gas deduction of failed transactions).
+var devSchedule = schedule{"dev", [28]uint64{0, 0, 0, 0, 0, 0, 0, 0, 0, 0, 0, 0, 0, 0, 0, 0, 0, 0, 0, 0, 10, 0, 0, 12, 0, 1000000000, 0, 0}}
+
 var forkPoints = []forkPoint{
 	{nil, 100, "dev"},
 	{&mainnetSchedule, 3000000, "mainnet<002"},
 	{&mainnetSchedule, 3500000, "mainnet>=002"},
+	{&mainnetSchedule, 30000000, "mainnet<014"}, // 012 on (refund heights need no group chain), 014 off: no stake / auth opcodes
+	{&mainnetSchedule, 48081000 - 2, "mainnet@014"},
 	{&mainnetSchedule, 53500000, "mainnet>=015"},
 	{&mainnetSchedule, 55000000, "mainnet>=017"},
 	{&mainnetSchedule, 62000000, "mainnet>=021"},
@@ -47,6 +53,44 @@ var forkPoints = []forkPoint{
 	{&robinSchedule, 75000000, "robin>=021"},
 	{&robinSchedule, 80000000, "robin>=026"},
 	{&robinSchedule, 85000000, "robin>=027"},
+	// two blocks before the exact proposal heights: the session crosses the boundary block by block
+	{&mainnetSchedule, 3353000 - 2, "mainnet@002"},
+	{&mainnetSchedule, 53015000 - 2, "mainnet@015"},
+	{&mainnetSchedule, 54038500 - 2, "mainnet@017"},
+	{&mainnetSchedule, 64666400 - 2, "mainnet@026"},
+	{&mainnetSchedule, 69329000 - 2, "mainnet@027"},
+	{&robinSchedule, 2802000 - 2, "robin@002"},
+	{&robinSchedule, 61205000 - 2, "robin@015"},
+	{&robinSchedule, 79365500 - 2, "robin@026"},
+	{&robinSchedule, 84150000 - 2, "robin@027"},
+}
+
+// independentFlags computes the flag vector from the harness's own copy of the schedule (not through
+// common.IsProposalNNN): the code's answers are checked against it on every block.
+func independentFlags(fp forkPoint, h uint64) Flags {
+	sc := fp.sched
+	if sc == nil {
+		sc = &devSchedule
+	}
+	on := func(n int) bool { return h >= sc.p[n] }
+	return Flags{on(2), on(12), on(14), on(15), on(17), on(18), on(21), on(26), on(27)}
+}
+
+// harnessViolations collects property-level failures the harness itself can see (reported in STATS and as FOUND lines).
+var harnessViolations []Found
+
+func reportViolation(key, desc string, replay []string) {
+	forkMu.Lock()
+	defer forkMu.Unlock()
+	for _, v := range harnessViolations {
+		if v.Key == key {
+			return
+		}
+	}
+	f := Found{Key: key, Desc: desc, Replay: replay}
+	harnessViolations = append(harnessViolations, f)
+	js, _ := json.Marshal(f)
+	fmt.Println("FOUND " + string(js))
 }
 
 var devConfig common.ChainConfig
@@ -58,11 +102,16 @@ type Flags struct {
 
 func (w *World) SetFork(fp forkPoint) {
 	w.applyFork(fp)
-	w.out.Emit(fmt.Sprintf("cfg %d %d %d %d %d %d %d %s", fp.height, b2i(w.flags.P002), b2i(w.flags.P015), b2i(w.flags.P017), b2i(w.flags.P018),
-		b2i(w.flags.P026), b2i(w.flags.P027), fp.label), "ok")
+	w.out.Emit(fmt.Sprintf("cfg %d %d %d %d %d %d %d %d %s", fp.height, b2i(w.flags.P002), b2i(w.flags.P015), b2i(w.flags.P017), b2i(w.flags.P018),
+		b2i(w.flags.P026), b2i(w.flags.P027), b2i(w.flags.P014), fp.label), "ok")
 }
 
+var forkMu sync.Mutex
+var appliedSched string
+
 func (w *World) applyFork(fp forkPoint) {
+	forkMu.Lock()
+	defer forkMu.Unlock()
 	if !devConfigSaved {
 		devConfig = common.LocalChainConfig
 		devConfigSaved = true
@@ -77,7 +126,14 @@ func (w *World) applyFork(fp forkPoint) {
 		c.Proposal021Block, c.Proposal022Block, c.Proposal023Block, c.Proposal024Block, c.Proposal025Block = p[21], p[22], p[23], p[24], p[25]
 		c.Proposal026Block, c.Proposal027Block = p[26], p[27]
 	}
-	common.LocalChainConfig = c
+	name := "dev"
+	if fp.sched != nil {
+		name = fp.sched.name
+	}
+	if appliedSched != name { // concurrent worlds on one schedule must not rewrite the global
+		common.LocalChainConfig = c
+		appliedSched = name
+	}
 	w.height = fp.height
 	common.SetBlockHeight(fp.height)
 	w.fork = fp
@@ -144,9 +200,12 @@ func (w *World) refreshFlags(next uint64, prev uint64) {
 	c := common.LocalChainConfig
 	nf := Flags{common.IsProposal002(), common.IsProposal012(), next >= c.Proposal014Block, common.IsProposal015(), common.IsProposal017(),
 		common.IsProposal018(), common.IsProposal021(), common.IsProposal026(), common.IsProposal027()}
+	if ind := independentFlags(w.fork, next); ind != nf {
+		reportViolation("fork-flag-mismatch", fmt.Sprintf("%s height %d: common.IsProposalNNN() answers %+v, the schedule says %+v", w.fork.label, next, nf, ind), nil)
+	}
 	if nf != w.flags {
 		w.flags = nf
-		w.out.Emit(fmt.Sprintf("cfg %d %d %d %d %d %d %d %s", prev, b2i(nf.P002), b2i(nf.P015), b2i(nf.P017), b2i(nf.P018),
-			b2i(nf.P026), b2i(nf.P027), w.fork.label), "ok")
+		w.out.Emit(fmt.Sprintf("cfg %d %d %d %d %d %d %d %d %s", prev, b2i(nf.P002), b2i(nf.P015), b2i(nf.P017), b2i(nf.P018),
+			b2i(nf.P026), b2i(nf.P027), b2i(nf.P014), w.fork.label), "ok")
 	}
 }
